@@ -631,6 +631,22 @@ class Enumerator:
                     res.extend(apply(ro.events + [Ev("letcond", pat, X, True, node=e)], None, pat))
                 res.append(PathOut(ro.events + [Ev("letcond", pat, X, False, node=e)], "fall", "%s(%s)" % (other, re.sub(r"\W+", "_", "%s_%s" % (X, other.lower()))), None, e))
             return res
+        if self.combinators and k == "MethodCall" and e.get("name") == "flatten" and not (e.get("args") or []) and "Option<" in str(e.get("recv_ty", "")):
+            # Some(Some(x)) / Some(None) / None flattened: the receiver's value on this path, one level peeled
+            res = []
+            for ro in self.expr(e["recv"]):
+                if ro.exit != "fall":
+                    res.append(ro)
+                    continue
+                mf = re.match(r"^Some\((.*)\)$", ro.val or "")
+                if mf and _balanced(mf.group(1)):
+                    res.append(PathOut(ro.events, "fall", mf.group(1), None, e))
+                elif ro.val == "None":
+                    res.append(PathOut(ro.events, "fall", "None", None, e))
+                else:
+                    v_ = "%s.flatten()" % ro.val
+                    res.append(PathOut(ro.events + [Ev("call", v_, self.callee_name(e), node=e)], "fall", v_, None, e))
+            return res
         if self.combinators and k == "MethodCall" and e.get("name") == "then" and str(e.get("recv_ty", "")).lstrip("&") == "bool" \
                 and len(e.get("args") or []) == 1 and peel(e["args"][0]).get("k") == "Closure":
             # `cond.then(|| body)` is `if cond { Some(body) } else { None }`
